@@ -10,6 +10,8 @@
 (*   hcr (handle_client_request):      pass | mod | drop | rej | drop2 (drop on its second invocation only)        *)
 (*   huc (handle_upstream_chunk):      pass | mod | drop                                                          *)
 (*   log (on_access_log):              pass | none (return None: ends the access-log chain)                        *)
+(*   hcd (handle_client_data):         pass | drop (return None: ends the chain) - consulted for every further segment the      *)
+(*                                     client sends on a connection for which NO upstream connection was made               *)
 (*   dns (resolve_dns):                none | ip (names the address to connect to: the first such plugin wins and     *)
 (*                                     ends the resolve chain)                                                      *)
 (* auth: "off" | "ok" | "bad" - the authentication plugin sits AHEAD of plugin 1.                                  *)
@@ -23,10 +25,11 @@ HCR == {"pass", "mod", "drop", "rej", "drop2"}
 HUC == {"pass", "mod", "drop"}
 LOG == {"pass", "none"}
 DNS == {"none", "ip"}
+HCD == {"pass", "drop"}
 Endings == {"normal", "cabort", "uabort", "refused"}
-Behaviour == [buc : BUC, hcr : HCR, huc : HUC, log : LOG, dns : DNS]
+Behaviour == [buc : BUC, hcr : HCR, huc : HUC, log : LOG, dns : DNS, hcd : HCD]
 Dev(b) == (IF b.buc = "pass" THEN 0 ELSE 1) + (IF b.hcr = "pass" THEN 0 ELSE 1) + (IF b.huc = "pass" THEN 0 ELSE 1)
-          + (IF b.log = "pass" THEN 0 ELSE 1) + (IF b.dns = "none" THEN 0 ELSE 1)
+          + (IF b.log = "pass" THEN 0 ELSE 1) + (IF b.dns = "none" THEN 0 ELSE 1) + (IF b.hcd = "pass" THEN 0 ELSE 1)
 Programs == {pr \in [1..NP -> Behaviour] : \A p \in 1..NP : Dev(pr[p]) <= MAXDEV}
 
 VARIABLES prog, auth, ending,
@@ -111,8 +114,17 @@ Resp == /\ pc = "resp"
 After == /\ pc = "after"
          /\ IF ending = "normal" /\ r < NREQ /\ conn = "ok"
             THEN r' = r + 1 /\ tags' = <<>> /\ rtags' = <<>> /\ Goto("hcr")
+            ELSE IF ending = "normal" /\ r < NREQ /\ conn = "none" /\ ~doconn /\ ~closed
+            THEN r' = r + 1 /\ Goto("hcd") /\ UNCHANGED <<tags, rtags>>      \* no upstream was wanted: further client data goes to the plugins
             ELSE Goto("log") /\ UNCHANGED <<r, tags, rtags>>
          /\ UNCHANGED <<prog, auth, ending, nhcr, calls, conn, doconn, fwd, out, closed, dest>>
+
+\* handle_client_data chain for one further segment of the client (no upstream connection exists)
+Hcd == /\ pc = "hcd"
+       /\ IF i > NP THEN Goto("after") /\ UNCHANGED calls
+          ELSE /\ Call(i, "hcd", <<>>)
+               /\ IF prog[i].hcd = "drop" THEN Goto("after") ELSE i' = i + 1 /\ UNCHANGED pc
+       /\ UNCHANGED <<prog, auth, ending, r, tags, rtags, nhcr, conn, doconn, fwd, out, closed, dest>>
 
 \* the connection is over (whoever ended it): access-log chain, then on_upstream_connection_close of every plugin
 Log == /\ pc = "log"
@@ -125,7 +137,7 @@ Close == /\ pc = "close"
             ELSE Call(i, "close", <<>>) /\ i' = i + 1 /\ UNCHANGED pc
          /\ UNCHANGED <<prog, auth, ending, r, tags, rtags, nhcr, conn, doconn, fwd, out, closed, dest>>
 
-Next == Auth \/ Buc \/ Dns \/ Connect \/ Hcr \/ Resp \/ After \/ Log \/ Close
+Next == Auth \/ Buc \/ Dns \/ Connect \/ Hcr \/ Hcd \/ Resp \/ After \/ Log \/ Close
 Spec == Init /\ [][Next]_vars
 
 (* ---------------- the property, as invariants of the design ---------------- *)
